@@ -130,6 +130,11 @@ func (dt DateTime) TryEqual(input Any) (bool, bool) {
 		}
 		return dtComponents[i] == valComponents[i], true
 	}
+	if dateTimeMap[dt.l] == dateTimeMap[val.l] {
+		// The same precision written with different layouts (with and without a
+		// zone): every component is equal.
+		return true, true
+	}
 	return false, false
 }
 
@@ -160,6 +165,10 @@ func (dt DateTime) Less(input Any) (Boolean, error) {
 			continue
 		}
 		return dtComponents[i] < valComponents[i], nil
+	}
+	if dateTimeMap[dt.l] == dateTimeMap[val.l] {
+		// Same precision, every component equal: not less.
+		return false, nil
 	}
 	return false, ErrMismatchedPrecision
 }
